@@ -144,6 +144,19 @@ CHECKS = {
                      "sequences to length 12 for window sizes 1..4 on one or two connections, so eviction from the "
                      "window, repeats of pending requests and cross-origin identifiers are exercised.",
                 ref="4 C17", note=NODE_NOTE + "; the window counts every answer the node transmits to the origin."),
+    "C14": dict(cat="fault_enumeration", tech="fault injection at enumerated byte offsets and protocol steps on the "
+                "lockstep node harness; monitors: threading.excepthook, liveness of long-lived threads, absolute "
+                "reconnect-and-serve probe; plus directed (stall at shared-table lines) and seeded (yield injection) "
+                "schedule perturbation through sys.monitoring",
+                text="Scenarios {inbound/outbound handshake, request/answer, DWR/DWA both ways, DPR} x cut points "
+                     "{0, 1, 19, 20, mid-AVP, last-1, whole frame, handler still running, answer submitted} x faults "
+                     "{close, reset, hard read/write error, soft errors, garbage frames, connect refused/failed} x "
+                     "handlers {answer, none, raise, slow} x basic/threading application with limits 0..3 x 1..3 "
+                     "consecutive faults, each followed by a fresh peer's handshake and limit+2 requests. The same "
+                     "scenarios and four race histories run again with threads stalled at lines touching shared "
+                     "tables until the other side has run to quiescence, and connection churn runs free with seeded "
+                     "yields at line boundaries.",
+                ref="4 C14", note=NODE_NOTE + "; the stall / yield perturbation only preempts at line boundaries."),
 }
 
 NOT_YET = "check not built yet in this round (planned in DESIGN.md section 4); no claim is made"
